@@ -22,6 +22,7 @@ DRIVER_DIR = os.path.join(VERIF, 'engine', 'driver')
 DRIVER = os.path.join(DRIVER_DIR, 'target', 'release', 'opqmir')
 HARNESS = os.path.join(VERIF, 'engine', 'harness', 'suites')
 FIXTURES = os.path.join(VERIF, 'engine', 'fixtures')
+VGROUP = os.path.join(VERIF, 'engine', 'harness', 'vgroup')
 
 OPRF = ['r255', 'p256', 'p384', 'p521']
 KE = ['r255', 'p256', 'p384', 'p521', 'c25519']
@@ -81,6 +82,8 @@ def tree_hash():
         for p in _walk(os.path.join(FIXTURES, 'src')) + [os.path.join(FIXTURES, 'Cargo.toml')]:
             if os.path.exists(p):
                 _sha_file(h, p)
+    for p in _walk(os.path.join(VGROUP, 'src')) + [os.path.join(VGROUP, 'Cargo.toml')]:
+        _sha_file(h, p)
     return h.hexdigest()[:20]
 
 
@@ -197,6 +200,23 @@ def _extract_f(outdir):
             raise MachineryError('fixtures(%s): driver produced no fact files' % mode)
 
 
+def _extract_v(outdir):
+    """the crate's forwarding `impl voprf::Group for opaque_ke::Ristretto255`, walked from a root of its own (engine/harness/vgroup)"""
+    target = os.path.join(WORK, 'tv')
+    vdir = _crate_dir(VGROUP, 'vgroup')
+    shutil.copyfile(os.path.join(REPO, 'Cargo.lock'), os.path.join(vdir, 'Cargo.lock'))
+    odir = os.path.join(outdir, 'vg')
+    os.makedirs(odir, exist_ok=True)
+    for attempt in (0, 1):
+        _rm_fingerprints(target, 'vgroup-')
+        env = _env({'OPQ_MODE': 'M', 'OPQ_CRATE': 'vgroup', 'OPQ_OUT_DIR': odir, 'OPQ_SUITES': 'all', 'CARGO_TARGET_DIR': target})
+        _run_cargo(['cargo', '+nightly', 'check', '--lib', '--offline'], vdir, env, 'vgroup(M)')
+        if os.path.exists(os.path.join(odir, 'm-DONE')):
+            return
+        shutil.rmtree(target, ignore_errors=True)
+    raise MachineryError('vgroup(M): driver produced no fact files')
+
+
 G_CONFIGS = {
     'all': ['--all-features'],
     'default': [],
@@ -224,6 +244,8 @@ def ensure(thorough=False):
             _extract_m(outdir, release=True); did.append('M(release cfg)')
         if not os.path.exists(os.path.join(outdir, 'min', 'm-DONE')):
             _extract_m(outdir, minimal=True); did.append('M(min features)')
+        if not os.path.exists(os.path.join(outdir, 'vg', 'm-DONE')):
+            _extract_v(outdir); did.append('vgroup')
         if os.path.isdir(FIXTURES) and not (os.path.exists(os.path.join(outdir, 'fx', 'm-DONE')) and os.path.exists(os.path.join(outdir, 'fx', 'g-fx.json'))):
             _extract_f(outdir); did.append('fixtures')
         if thorough:
